@@ -108,8 +108,9 @@ class Recorder:
 
     def dispose(self) -> None:
         """Dispose the recorder's own subscription and remember when dispose() returned."""
-        if self.subscription is not None:
-            self.subscription.dispose()
+        if self.subscription is None:
+            return  # no handle yet (still inside subscribe()): nothing to dispose, nothing to claim
+        self.subscription.dispose()
         if self.disposed_step is None:
             self.disposed_step = self.sched.tick()
             self.disposed_time = self.sched._clock
@@ -386,7 +387,9 @@ class Env:
             for r in self.recorders:
                 if r.disposed_step is None:
                     r.dispose()
-            self.sched.stop()
+            # stop only after whatever the horizon disposal scheduled for this same instant
+            # (e.g. subscribe_on's ScheduledDisposable) has run
+            self.at(horizon, self.sched.stop)
 
         self.at(horizon, end)
         try:
